@@ -36,7 +36,7 @@
  *   ff<d>,<depth>,<hex>       json_object_from_fd_ex(fd of a temporary file holding the bytes, depth)
  *   ps<r>,<c>,<hexpath>       json_pointer_set(&r, path, c)
  *   pg<r>,<hexpath>           json_pointer_get(r, path, &res): rc and typed dump of res
- *   df<g|t>,<hexfmt|->        json_c_set_serialization_double_format(fmt | NULL, GLOBAL | THREAD); from then on
+ *   df<g|t|x>,<hexfmt|->      json_c_set_serialization_double_format(fmt | NULL, GLOBAL | THREAD | 7 (invalid)); from then on
  *                             every state dump also shows how the double 1.5 serializes (a released format
  *                             string that is still in use shows up there, under ASan)
  *   pa<d>,<r>,<p>             json_patch_apply(r, p, &d, &err)   (copy mode)
@@ -182,10 +182,12 @@ static char *state_dump(void)
 	}
 	if (xa_count != c0) dump_allocated = 1;
 	if (fmt_used) {
-		struct json_object *probe = json_object_new_double(1.5);
+		/* the EFFECTIVE format of this thread: how a fractional and a whole-number double serialize */
+		struct json_object *probe = json_object_new_double(1.5), *whole = json_object_new_double(2.0);
 		const char *t = probe ? json_object_to_json_string_ext(probe, 0) : NULL;
-		fprintf(f, "fmt=%s;", t ? t : "NULL");
-		json_object_put(probe);
+		const char *u = whole ? json_object_to_json_string_ext(whole, 0) : NULL;
+		fprintf(f, "fmt=%s,%s;", t ? t : "NULL", u ? u : "NULL");
+		json_object_put(probe); json_object_put(whole);
 	}
 	fclose(f);
 	xa_failed = failed;
@@ -366,12 +368,12 @@ static char *exec_op(char *op, int *isfail, int *bad)
 		/* 'n' builds the NULL pointer: keep the register empty, that is what it denotes */
 		return res_close();
 	}
-	if (op[0] == 'd' && op[1] == 'f' && (op[2] == 'g' || op[2] == 't') && op[3] == ',') {
-		int rc;
-		if (op[4] == '-') rc = json_c_set_serialization_double_format(NULL, op[2] == 'g' ? JSON_C_OPTION_GLOBAL : JSON_C_OPTION_THREAD);
+	if (op[0] == 'd' && op[1] == 'f' && (op[2] == 'g' || op[2] == 't' || op[2] == 'x') && op[3] == ',') {
+		int rc, scope = op[2] == 'g' ? JSON_C_OPTION_GLOBAL : op[2] == 't' ? JSON_C_OPTION_THREAD : 7;
+		if (op[4] == '-') rc = json_c_set_serialization_double_format(NULL, scope);
 		else {
 			size_t n; unsigned char *b = unhex(op + 4, &n); char *z = cstr_of(b, n);
-			rc = json_c_set_serialization_double_format(z, op[2] == 'g' ? JSON_C_OPTION_GLOBAL : JSON_C_OPTION_THREAD);
+			rc = json_c_set_serialization_double_format(z, scope);
 			(free)(b); (free)(z);
 		}
 		fprintf(res_f, "%d", rc);
